@@ -185,7 +185,17 @@ func driver(seed uint64, n int, outV, outJSON string, _ []string) {
 		sizes := []int64{1, 100, 4096, 4097, 8000, 8192}
 		var blobs []*blob
 		for i := 0; i < 5; i++ {
-			blobs = append(blobs, mkBlob(r, r.Pick(sizes), r.Chance(50)))
+			b := mkBlob(r, r.Pick(sizes), r.Chance(50))
+			for dup := true; dup; { // distinct contents: the content identity is the blob index
+				dup = false
+				for _, o := range blobs {
+					if o.hash == b.hash {
+						dup = true
+						b = mkBlob(r, int64(len(b.data))+1, false)
+					}
+				}
+			}
+			blobs = append(blobs, b)
 		}
 		for _, b := range blobs {
 			b.ondisk = int64(len(b.data))
